@@ -429,9 +429,10 @@ def run(ctx):
     ctx.assumptions += ["the sort used below the parallel cutoff (libc qsort, drf_qsort_dbl/_algt) is a correct sort (Section hypothesis; "
                         "compared with the real code on every run)",
                         "inputs contain no NaN and no -0.0; worker counts < 65536",
-                        "partition threads of one partitioner call touch disjoint index sets (model runs them in index order)",
-                        "sortedness/termination above the partition threshold: named hypothesis strided_partition_post (Util/SortCorrect.v), "
-                        "evaluated on the extracted model for every generated input that enters the parallel partition loop"]
+                        "partition threads of one partitioner call touch pairwise disjoint slices (proved: strided_slices_partition); the model "
+                        "runs them in index order",
+                        "the partition postcondition (proved: strided_pass_correct / partition loop invariant) is additionally evaluated on the "
+                        "extracted model for every generated input that enters the parallel partition loop"]
     broken = bool(mism) or not pr["ok"]
     unknown = [(w_, c) for (s, w_, c) in ofail if s is None]
     if not broken:
